@@ -1104,3 +1104,159 @@ Lemma stale_snapshot_regression :
   (* without `c.values[key] = m`: the second reload diffs against the empty first snapshot and never removes it *)
   map (fun log => fst (get_values (crun false (map OCall log)))) (subs (run_prefix u h)) = [Ok [7]].
 Proof. vm_compute. repeat split; reflexivity. Qed.
+
+(* ------------------------------------------------------------------ late joiner: same keys *)
+Lemma mapping_converges u vf h : consistent vf h -> synced u h = true ->
+  forall log, In log (subs (run u h)) -> forall x ops, calls_of ops = log ->
+  forall k v, kget k (mapping (crun x ops)) = Some v <->
+              u k = true /\ kget k (spec_etcd h) = Some v /\ (x = true -> last_add log v = Some k).
+Proof.
+  intros C Sy log Hin x ops E k v. destruct (container_tracks u vf h C log Hin x ops E) as [M _].
+  destruct (cluster_tracks u h Sy) as (m & Cm & A). rewrite M. unfold cur. rewrite Cm, A, etcd_spec.
+  destruct (u k); split.
+  - intros [H L]. auto.
+  - intros (_ & H & L). auto.
+  - intros [H _]. discriminate.
+  - intros (H & _). discriminate.
+Qed.
+
+Lemma subscribers_agree u vf h : consistent vf h ->
+  forall log1 log2, In log1 (subs (run u h)) -> In log2 (subs (run u h)) ->
+  forall ops1 ops2, calls_of ops1 = log1 -> calls_of ops2 = log2 ->
+  forall k, kget k (mapping (crun false ops1)) = kget k (mapping (crun false ops2)).
+Proof.
+  intros C log1 log2 H1 H2 ops1 ops2 E1 E2 k.
+  destruct (container_tracks u vf h C log1 H1 false ops1 E1) as [M1 _].
+  destruct (container_tracks u vf h C log2 H2 false ops2 E2) as [M2 _].
+  destruct (kget k (mapping (crun false ops1))) as [v|] eqn:G1.
+  - apply M1 in G1 as [G1 _]. symmetry. apply M2. split; [assumption|discriminate].
+  - destruct (kget k (mapping (crun false ops2))) as [v|] eqn:G2; [|reflexivity].
+    apply M2 in G2 as [G2 _]. rewrite <- G1. apply M1. split; [assumption|discriminate].
+Qed.
+
+Lemma late_join_mapping u vf h oc oa od x : consistent vf h ->
+  let h' := h ++ [Subscribe oc oa od] in
+  let log := last (subs (run u h')) [] in
+  forall ops, calls_of ops = log ->
+  forall k v, kget k (mapping (crun x ops)) = Some v <->
+              u k = true /\ kget k (spec_etcd h') = Some v /\ (x = true -> last_add log v = Some k).
+Proof.
+  intros C h' log ops E.
+  assert (C' : consistent vf h') by (apply Forall_app; split; [assumption|constructor; [exact I|constructor]]).
+  destruct (late_join u vf h oc oa od x C) as (Hin & _).
+  apply (mapping_converges u vf h' C' (synced_subscribe u h oc oa od) log Hin x ops E).
+Qed.
+
+(* ------------------------------------------------------------------ the same key delivered several times *)
+Lemma view_repeat_add k v n m k' :
+  kget k' (fold_left view_step (repeat (CAdd k v) n) m) =
+  match n with 0 => kget k' m | S _ => if Nat.eqb k' k then Some v else kget k' m end.
+Proof.
+  revert m. induction n as [|n IH]; intro m; [reflexivity|]. simpl. rewrite IH. destruct n.
+  - apply kget_kset.
+  - rewrite kget_kset. destruct (Nat.eqb k' k); reflexivity.
+Qed.
+
+Lemma duplicate_delivery vf x ops k v n : calls_ok vf (calls_of ops) -> v = vf k ->
+  let c := crun x (ops ++ map OCall (repeat (CAdd k v) n) ++ [OCall (CDel k)]) in
+  kget k (mapping c) = None /\
+  exists vs, fst (get_values c) = Ok vs /\ NoDup vs /\
+    forall v', In v' vs <-> exists k', k' <> k /\ kget k' (mapping c) = Some v'.
+Proof.
+  intros C E c.
+  assert (CO : calls_of (ops ++ map OCall (repeat (CAdd k v) n) ++ [OCall (CDel k)]) =
+               calls_of ops ++ repeat (CAdd k v) n ++ [CDel k]).
+  { unfold calls_of. rewrite !flat_map_app. f_equal. f_equal.
+    induction n; simpl; [reflexivity|]. f_equal. assumption. }
+  assert (C' : calls_ok vf (calls_of (ops ++ map OCall (repeat (CAdd k v) n) ++ [OCall (CDel k)]))).
+  { rewrite CO. apply Forall_app. split; [assumption|]. apply Forall_app. split.
+    - apply Forall_forall. intros y Hy. apply repeat_spec in Hy. subst y. exact E.
+    - constructor; [exact I|constructor]. }
+  destruct (crun_inv vf x _ C') as [I X]. fold c in I.
+  assert (N : kget k (mapping c) = None).
+  { destruct (kget k (mapping c)) as [v'|] eqn:G; [|reflexivity]. apply (ci_view vf _ _ I) in G as [G _].
+    rewrite CO in G. rewrite app_assoc, view_snoc in G. simpl in G. rewrite kget_kdel, Nat.eqb_refl in G. discriminate. }
+  split; [assumption|]. destruct (get_values_spec vf _ _ I) as (vs & G & Nd & Iv).
+  exists vs. split; [assumption|]. split; [assumption|]. intro v'. rewrite Iv. split.
+  - intros (k' & H). exists k'. split; [|assumption]. intro Q; subst. congruence.
+  - intros (k' & _ & H). eauto.
+Qed.
+
+(* ------------------------------------------------------------------ the resolver *)
+Definition rphase (init : list call) (r : rstate) (cs : list call) : Prop :=
+  exists ops, r_ops r = Some ops /\ calls_of ops = cs /\
+    ((r_todo r = [BListen; BPush] /\ r_reg r = false) \/
+     (r_todo r = [BPush] /\ r_reg r = true) \/
+     (r_todo r = [] /\ r_reg r = true /\
+      exists ops' ps, ops = ops' ++ [OGet] /\ r_pushes r = ps ++ [fst (get_values (crun false ops'))])).
+
+Lemma calls_of_app a b : calls_of (a ++ b) = calls_of a ++ calls_of b.
+Proof. unfold calls_of. apply flat_map_app. Qed.
+
+Lemma rphase_step init r cs i : rphase init r cs ->
+  rphase init (rstep init r i) (cs ++ match i with Some c => [c] | None => [] end).
+Proof.
+  intros (ops & O & Cs & Ph). destruct i as [c|]; simpl.
+  - rewrite O. destruct Ph as [[T Rg]|[[T Rg]|(T & Rg & ops' & ps & Eo & Ep)]]; rewrite Rg.
+    + exists (ops ++ [OCall c]). simpl. split; [reflexivity|]. split; [rewrite calls_of_app, Cs; reflexivity|]. left. auto.
+    + unfold r_push. simpl. exists ((ops ++ [OCall c]) ++ [OGet]). simpl. split; [reflexivity|].
+      split; [rewrite !calls_of_app, Cs; simpl; rewrite app_nil_r; reflexivity|]. right. left. auto.
+    + unfold r_push. simpl. exists ((ops ++ [OCall c]) ++ [OGet]). simpl. split; [reflexivity|].
+      split; [rewrite !calls_of_app, Cs; simpl; rewrite app_nil_r; reflexivity|]. right. right.
+      split; [auto|]. split; [auto|]. exists (ops ++ [OCall c]), (r_pushes r). auto.
+  - rewrite app_nil_r. destruct Ph as [[T Rg]|[[T Rg]|(T & Rg & ops' & ps & Eo & Ep)]]; rewrite T.
+    + exists (ops ++ [OListen]). simpl. rewrite O. simpl. split; [reflexivity|].
+      split; [rewrite calls_of_app, Cs; simpl; apply app_nil_r|]. right. left. auto.
+    + unfold r_push. simpl. rewrite O. exists (ops ++ [OGet]). simpl. split; [reflexivity|].
+      split; [rewrite calls_of_app, Cs; simpl; apply app_nil_r|]. right. right.
+      split; [reflexivity|]. split; [assumption|]. exists ops, (r_pushes r). auto.
+    + exists ops. split; [assumption|]. split; [assumption|]. right. right. split; [assumption|]. split; [assumption|].
+      exists ops', ps. auto.
+Qed.
+
+Lemma rphase_run init sched : forall r cs, rphase init r cs ->
+  rphase init (fold_left (rstep init) sched r) (cs ++ somes sched).
+Proof.
+  induction sched as [|i sched IH]; intros r cs H; simpl.
+  - rewrite app_nil_r. assumption.
+  - unfold somes in *. simpl. rewrite app_assoc. apply IH. apply rphase_step. assumption.
+Qed.
+
+Lemma calls_of_ocalls l : calls_of (map OCall l) = l.
+Proof. unfold calls_of. induction l; simpl; [reflexivity|]. f_equal. assumption. Qed.
+
+Lemma resolver_no_lost_update init sched :
+  let r := rrun build_order init sched in
+  r_todo r = [] ->
+  exists ops ps, calls_of ops = init ++ arrived sched /\
+                 r_pushes r = ps ++ [fst (get_values (crun false ops))].
+Proof.
+  unfold rrun. induction sched as [|[c|] sched IH]; simpl.
+  - discriminate.
+  - exact IH.
+  - intro T.
+    assert (P : rphase init (mkR (Some (map OCall init)) [BListen; BPush] false []) init).
+    { exists (map OCall init). split; [reflexivity|]. split; [apply calls_of_ocalls|left; auto]. }
+    apply (rphase_run init sched) in P. destruct P as (ops & O & Cs & Ph).
+    destruct Ph as [[T' _]|[[T' _]|(_ & _ & ops' & ps & Eo & Ep)]]; try congruence.
+    exists ops', ps. split; [|assumption]. rewrite <- Cs, Eo, calls_of_app. simpl. symmetry. apply app_nil_r.
+Qed.
+
+Lemma resolver_current u vf h log init sched :
+  consistent vf h -> synced u h = true -> In log (subs (run u h)) -> init ++ arrived sched = log ->
+  let r := rrun build_order init sched in
+  r_todo r = [] ->
+  exists ps vs, r_pushes r = ps ++ [Ok vs] /\ NoDup vs /\ forall v, In v vs <-> live u (spec_etcd h) v.
+Proof.
+  intros C Sy Hin E r T. destruct (resolver_no_lost_update init sched T) as (ops & ps & Co & Ep).
+  rewrite E in Co. destruct (converges_shared u vf h C Sy log Hin ops Co) as (vs & G & Nd & Iv).
+  exists ps, vs. fold r in Ep. rewrite Ep, G. auto.
+Qed.
+
+(* pushing before registering loses an update that arrives in between *)
+Lemma resolver_push_first_loses :
+  let sched := [None; None; Some (CAdd 1 7); None] in
+  let r := rrun [BSubscribe; BPush; BListen] [] sched in
+  r_todo r = [] /\ r_pushes r = [Ok []] /\
+  option_map (fun ops => fst (get_values (crun false ops))) (r_ops r) = Some (Ok [7]).
+Proof. vm_compute. repeat split; reflexivity. Qed.
